@@ -88,9 +88,27 @@ def r1b_dead_temporaries(ctx, F):
                 continue  # by-value parameter: the caller's business
             n += 1
             after = f.after(c.bb)
-            used = any(st.bb in after and base in re.findall(r"_\d+", st.text()) for st in f.stmts) or any(
-                c2.bb in after and c2 is not c and any(base in re.findall(r"_\d+", a) for a in c2.args)
-                for c2 in f.calls) or base == "_0"
+            # the relocated copy (or a plain copy of it) must be STORED again: assigned into a place reached through a
+            # reference / a field, returned, or handed whole to a storing call (set_*, push, insert, ...). Merely
+            # reading it (ptr_value(), repr, a comparison) does not write the relocation back.
+            alias = {base}
+            changed = True
+            while changed:
+                changed = False
+                for st in f.stmts:
+                    if st.bb in after and st.kind == "use" and st.lhs not in alias and re.match(
+                            r"(copy|move) (_\d+)$", st.ops[0] if st.ops else "") and st.ops[0].split()[1] in alias \
+                            and "." not in st.lhs:
+                        alias.add(st.lhs)
+                        changed = True
+            stored = any(st.bb in after and ("." in st.lhs) and any(a in re.findall(r"_\d+", " ".join(st.ops)) for a in alias)
+                         for st in f.stmts)
+            stored = stored or any(
+                c2.bb in after and c2 is not c and re.search(
+                    r"::(set\w*|push\w*|insert\w*|store\w*|replace\w*|write\w*|fill\w*|put\w*|extend\w*|assign\w*)$", c2.name)
+                and any(re.match(r"(move|copy) (_\d+)$", a) and a.split()[1] in alias for a in c2.args)
+                for c2 in f.calls)
+            used = stored or "_0" in alias
             tf = top_fn(F, f)
             ctx.check(used, "C03.R1b", "traced-temporary:" + re.sub(r"::<[^>]*>", "", tf.qpath),
                       "the traced stack copy is written back / used after the trace call",
